@@ -18,6 +18,16 @@ from ..provider.location import FieldLoc, TypeHintLoc
 from .provider_template import ConverterProvider
 
 
+class _ReprAsIs:
+    __slots__ = ("_text", )
+
+    def __init__(self, text: str):
+        self._text = text
+
+    def __repr__(self):
+        return self._text
+
+
 class BuiltinConverterProvider(ConverterProvider):
     def __init__(self, *, name_sanitizer: NameSanitizer = BuiltinNameSanitizer()):
         self._name_sanitizer = name_sanitizer
@@ -94,8 +104,19 @@ class BuiltinConverterProvider(ConverterProvider):
         update_wrapper_var = self._register_mangled(namespace, "_update_wrapper", update_wrapper)
         coercer_var = self._register_mangled(namespace, "coercer", coercer)
 
+        # defaults are passed via namespace, repr of an arbitrary object is not a valid (and safe) expression
         no_types_signature = signature.replace(
-            parameters=[param.replace(annotation=Signature.empty) for param in signature.parameters.values()],
+            parameters=[
+                param.replace(
+                    annotation=Signature.empty,
+                    default=(
+                        Signature.empty
+                        if param.default is Signature.empty else
+                        _ReprAsIs(self._register_mangled(namespace, f"default_{param.name}", param.default))
+                    ),
+                )
+                for param in signature.parameters.values()
+            ],
             return_annotation=Signature.empty,
         )
         parameters = tuple(signature.parameters.values())
